@@ -16,8 +16,28 @@ require github.com/anishathalye/porcupine v1.3.0
 replace verif/sim => $V/sim
 EOM
 cd "$S/src"
-if [ "$RACE" = race ]; then
-  go1.26.8 test -c -vet=off -tags verif -race -o "$S/sim.race.test" . 
-else
-  go1.26.8 test -c -vet=off -tags verif -o "$S/sim.test" .
+build() {
+  if [ "$RACE" = race ]; then
+    go1.26.8 test -c -vet=off -tags verif -race -o "$S/sim.race.test" .
+  else
+    go1.26.8 test -c -vet=off -tags verif -o "$S/sim.test" .
+  fi
+}
+# Harness files that call into the tree's internals beyond the start-up wiring are optional: when the tree under test has
+# changed a signature or a field they use, they are left out (recorded in $S/degraded.txt) instead of failing the build
+# of every check. check.py refuses only the checks that live in a file that was left out.
+OPTIONAL="routes rotation sendfaults inpkg_c15"
+rm -f "$S/degraded.txt"
+if ! build 2> "$S/build.err"; then
+  bad=$(grep -o '^\./zz_[a-z0-9_]*_test\.go' "$S/build.err" | sort -u | sed 's|^\./zz_||; s|_test\.go$||')
+  ok=1
+  [ -n "$bad" ] || ok=0
+  for b in $bad; do case " $OPTIONAL " in *" $b "*) ;; *) ok=0;; esac; done
+  if [ $ok = 1 ]; then
+    for b in $bad; do rm -f "zz_${b}_test.go"; echo "$b" >> "$S/degraded.txt"; done
+    cp "$S/build.err" "$S/degraded.err"
+    if ! build 2> "$S/build.err"; then cat "$S/build.err" >&2; exit 1; fi
+  else
+    cat "$S/build.err" >&2; exit 1
+  fi
 fi
